@@ -943,6 +943,17 @@ impl<'p> Host<'p> {
                     Err(e) => e,
                 }
             }
+            Op::SetFallbacks(v) => {
+                let v = *v;
+                self.fallbacks = v;
+                match self.guard(|s| {
+                    s.set_allow_external_function_fallbacks(v);
+                    Ok(())
+                }) {
+                    Ok(()) => Res::Ok(String::new()),
+                    Err(e) => e,
+                }
+            }
             Op::SetHandler => {
                 let h = self.handler_peer.clone();
                 self.handler = true;
